@@ -1,9 +1,9 @@
-from . import decprops, dictprops, encprops, pyprops
+from . import concprops, decprops, dictprops, encprops, pyprops
 
 
 def all_checks():
     out = {}
-    for mod in (decprops, encprops, dictprops, pyprops):
+    for mod in (decprops, encprops, dictprops, pyprops, concprops):
         for name in dir(mod):
             c = getattr(mod, name)
             if isinstance(c, type) and getattr(c, "prop", None) and c.__module__ == mod.__name__:
